@@ -29,10 +29,11 @@ RECURSIVE ChainOk(_, _, _, _, _)
 ChainOk(P, chain, i, p, k) ==
    IF i > Len(chain) THEN k
    ELSE LET c == T2H(p.n + 1, chain[i]) IN
-        IF Verify(P, Vers, p, c, Fixed) = "ok" THEN ChainOk(P, chain, i + 1, c, k + 1) ELSE k
+        IF Verify(PV(P, p.cv), Vers, p, c, Fixed) = "ok" THEN ChainOk(P, chain, i + 1, c, k + 1) ELSE k
 
-BuildMatches(P, p, b) ==
-   LET K == SeqSet(b.K)
+BuildMatches(PP, p, b) ==
+   LET P == PV(PP, p.cv)
+       K == SeqSet(b.K)
        out == BuilderNext(P, K, b.appr, b.wait, p) IN
    IF Len(b.out) = 0 THEN out = NoHdr
    ELSE /\ out # NoHdr /\ H2T(out) = b.out
@@ -40,14 +41,14 @@ BuildMatches(P, p, b) ==
         /\ Verify(P, Vers, p, out, Fixed) = b.full
 
 ExploreMatches(e) ==
-   LET P == e.P IN
-   /\ ChainOk(P, e.chain, 1, Genesis, 0) = e.okn
+   /\ ChainOk(e.P, e.chain, 1, Genesis, 0) = e.okn
    /\ e.okn = Len(e.chain) =>
         LET p == Last(e.chain, 1, Genesis)
+            P == PV(e.P, p.cv)
             acc == { e.acc[i] : i \in DOMAIN e.acc } IN
         /\ \A t \in acc : Verify(P, Vers, p, T2H(p.n + 1, t), Fixed) = "ok"
         /\ e.full = 1 => acc = { H2T(c) : c \in { d \in Cand(p, e.F) : Verify(P, Vers, p, d, Fixed) = "ok" } }
-        /\ \A i \in DOMAIN e.blds : BuildMatches(P, p, e.blds[i])
+        /\ \A i \in DOMAIN e.blds : BuildMatches(e.P, p, e.blds[i])
 
 TStep ==
    /\ l <= Len(TraceLog)
@@ -55,7 +56,7 @@ TStep ==
    /\ LET e == TraceLog[l] IN
       CASE e.ev \in {"reset", "abort"} -> hp' = Genesis
         [] e.ev = "explore" -> ExploreMatches(e) /\ UNCHANGED hp
-        [] e.ev = "step" -> LET c == T2H(hp.n + 1, e.c) IN Verify(e.P, Vers, hp, c, Fixed) = "ok" /\ hp' = c
+        [] e.ev = "step" -> LET c == T2H(hp.n + 1, e.c) IN Verify(PV(e.P, hp.cv), Vers, hp, c, Fixed) = "ok" /\ hp' = c
         [] OTHER -> UNCHANGED hp
 
 TInit == l = 1 /\ hp = Genesis /\ TLCSet(1, 0)
